@@ -377,6 +377,64 @@ def r7(p, rep):
 
     c14.r3(p, rep, rid="C01.R7", only_update=False)
 
+AXIS_OPS = {"sum", "mean", "var", "std", "prod", "count_nonzero", "all", "any", "min", "max", "amin", "amax", "logsumexp", "flip", "roll", "sort", "argsort", "softmax", "log_softmax", "argmax", "argmin", "cumsum"}
+AXIS_KEYWORDS = ("axis", "axes", "dim", "dims", "dimension", None)  # None: **kwargs built from the axis
+
+
+def r8(p, rep):
+    rep.rule("C01.R8", "a lowering that is asked to work along `axis` hands that axis to every primitive it applies to the operand", "T-SIB (parameter forwarding by provenance)", floor=8)
+    from sa.cfg import CFG
+
+    for f in p.funcs.values():
+        if not any(s in f.module.name for s in ("._src.adapter.", "._src.frontend.impl.")) or "axis" not in f.params or f.parent is None:
+            continue
+        derived, tens = {"axis"}, ({f.params[0]} if f.params[0] not in ("self", "axis") else set())
+        changed = True
+        while changed:
+            changed = False
+            for a in walk_no_nested(f.node):
+                if isinstance(a, ast.Assign):
+                    for dset in (derived, tens):
+                        if any(isinstance(x, ast.Name) and x.id in dset for x in ast.walk(a.value)):
+                            for t in a.targets:
+                                for y in ast.walk(t):
+                                    if isinstance(y, ast.Name) and y.id not in dset:
+                                        dset.add(y.id)
+                                        changed = True
+        factory = f.parent
+        encl = set()
+        g = f.parent
+        while g is not None:
+            encl |= set(g.params)
+            g = g.parent
+        primitive = factory.params[0] if factory.params else None
+        cfg = None
+        for c in walk_no_nested(f.node):
+            if not isinstance(c, ast.Call) or not c.args:
+                continue
+            if not any(isinstance(x, ast.Name) and x.id in tens for x in ast.walk(c.args[0])):
+                continue
+            if isinstance(c.func, ast.Attribute) and c.func.attr in AXIS_OPS:
+                ch = attr_chain(c.func)
+                if not ch or not (ch[0] in encl or ch[0] in tens):
+                    continue
+                what = f"table operation `{norm(c.func)}`"
+            elif isinstance(c.func, ast.Name) and c.func.id == primitive and primitive in encl:
+                what = f"the primitive `{primitive}`"
+            else:
+                continue
+            axargs = [k.value for k in c.keywords if k.arg in AXIS_KEYWORDS] + list(c.args[1:])
+            ok = any(isinstance(x, ast.Name) and x.id in derived for e in axargs for x in ast.walk(e))
+            key = f"{f.qualname}:{norm(c.func)}:axis"
+            site = f"{f.module.rel}:{c.lineno}"
+            if not ok:
+                cfg = cfg or CFG(f.node)
+                special = [norm(t) for t, pol in cfg.guards_of_ast(c) if t is not None and any(isinstance(x, ast.Name) and x.id in derived for x in ast.walk(t))]
+                if special:
+                    rep.ok("C01.R8", key + ":special-case", site, f"{what} is applied without an axis only under the special case {special[-1][:60]}")
+                    continue
+            rep.add("C01.R8", key, site, ok, f"{what} receives an axis derived from the `axis` parameter" if ok else f"{what} is applied to the operand without the `axis` the lowering was asked for (`{norm(c)[:70]}`): it works over all elements instead of per slice, so the loop iterations are no longer independent (e.g. one global maximum in softmax)")
+
 
 def run(p, rep, tier):
     r1(p, rep)
@@ -385,6 +443,7 @@ def run(p, rep, tier):
     r4(p, rep)
     r6(p, rep)
     r7(p, rep)
+    r8(p, rep)
     from . import c05, c14
 
     rep.rule("C05.R1", "merged transpose = inner permutation indexed by the outer permutation", "T-DER [S]", floor=1)
